@@ -61,7 +61,7 @@ def write_replay(prop, res, fail, vec, native, status):
     os.makedirs(os.path.join(VERIF, 'replays'), exist_ok=True)
     h = hashlib.sha1(json.dumps([res['harness'], res['profile'], fail['cls'], fail['id'], vec]).encode()).hexdigest()[:10]
     path = os.path.join(VERIF, 'replays', '%s-%s-%s.json' % (prop, res['harness'], h))
-    meaning = checks.IDS.get(fail['id'], (None, ''))[1] if fail['cls'] == 'VF' else fail['desc']
+    meaning = checks.meaning(prop, fail['id']) if fail['cls'] == 'VF' else fail['desc']
     json.dump({'property': prop, 'harness': res['harness'], 'group': res['group'], 'feats': res.get('feats', []), 'profile': res['profile'],
                'failing': {'class': fail['cls'], 'id': fail['id'], 'meaning': meaning, 'cbmc_property': fail['prop'], 'desc': fail['desc']},
                'vector': vec, 'native': native, 'status': status, 'cbmc_cmd': res.get('cmd'),
@@ -85,14 +85,15 @@ def nostd_gate():
     AND the release profile (cfg(debug_assertions) can hide a std:: path from one of them)"""
     outs, ok_n, ok_s = [], True, True
     for prof in ([], ['--release']):
-        cmd = ['build', '--offline', '--lib'] + prof
-        rc1, out1 = runner.cargo(cmd, 'gate-nostd', cwd=runner.REPO)
-        rc2, out2 = runner.cargo(cmd + ['--features', 'std'], 'gate-std', cwd=runner.REPO)
-        ok_n = ok_n and rc1 == 0
-        ok_s = ok_s and rc2 == 0
-        if rc1 != 0:
-            outs.append('$ cargo %s\n%s' % (' '.join(cmd), out1[-2500:]))
-    return {'nostd_ok': ok_n, 'std_ok': ok_s, 'cmd': 'cd /repo && cargo build --offline --lib [--release]', 'out': '\n'.join(outs)}
+        for extra in ([], ['serde']):   # the optional serde code is no_std code as well
+            cmd = ['build', '--offline', '--lib'] + prof
+            rc1, out1 = runner.cargo(cmd + (['--features', ','.join(extra)] if extra else []), 'gate-nostd', cwd=runner.REPO)
+            rc2, out2 = runner.cargo(cmd + ['--features', ','.join(['std'] + extra)], 'gate-std', cwd=runner.REPO)
+            ok_n = ok_n and rc1 == 0
+            ok_s = ok_s and rc2 == 0
+            if rc1 != 0:
+                outs.append('$ cargo %s %s\n%s' % (' '.join(cmd), ' '.join(extra), out1[-2500:]))
+    return {'nostd_ok': ok_n, 'std_ok': ok_s, 'cmd': 'cd /repo && cargo build --offline --lib [--release] [--features serde]', 'out': '\n'.join(outs)}
 
 
 def run_property(prop, tier, seed):
@@ -191,7 +192,7 @@ def run_property(prop, tier, seed):
     for k, r, f in known_hits:
         log('KNOWN-FINDING: property=%s %s (harness %s, check %s:%s)' % (prop, k.get('what', ''), r['harness'], f['cls'], f['id']))
     for r, f, path in violations:
-        meaning = checks.IDS.get(f['id'], (None, f['desc']))[1] if f['cls'] == 'VF' else f['desc']
+        meaning = checks.meaning(prop, f['id'], f['desc']) if f['cls'] == 'VF' else f['desc']
         log('VIOLATION property=%s replay=%s' % (prop, path))
         log('  harness=%s profile=%s check=%s:%s (%s)' % (r['harness'], r['profile'], f['cls'], f['id'], meaning))
     write_evidence(prop, tier, seed, results, builds, violations, known_hits, inconclusive, time.time() - t0, kani_res)
